@@ -69,7 +69,7 @@ type registryKey struct {
 }
 
 func (br *baseRegistry) Load(typ reflect.Type, tag string) plenccodec.Codec {
-	verifhook.At("registry.load", typ)
+	verifhook.AtTag("registry.load", typ, tag)
 	c, ok := br.codecRegistry.Load(registryKey{typ: typ, tag: tag})
 	if !ok {
 		return nil
@@ -82,7 +82,7 @@ func (br *baseRegistry) Store(typ reflect.Type, tag string, c plenccodec.Codec) 
 }
 
 func (br *baseRegistry) StoreOrSwap(typ reflect.Type, tag string, c plenccodec.Codec) plenccodec.Codec {
-	verifhook.At("registry.storeorswap", typ)
+	verifhook.AtTag("registry.storeorswap", typ, tag)
 	cv, _ := br.codecRegistry.LoadOrStore(registryKey{typ: typ, tag: tag}, c)
 	return cv.(plenccodec.Codec)
 }
